@@ -29,6 +29,8 @@
 (global $g1 (mut (ref null $_Str)) (ref.null $_Str))
 ;; Passive data segment for string constants (used with array.new_data)
 (data $d0 "0\00-2147483648")
+;; Messages of the documented Vec panics: "pop from empty Vec" (0, 18), "Vec index out of bounds" (18, 23)
+(data $d1 "pop from empty VecVec index out of bounds")
 (func $__$getBuiltinString (param $offset i32) (param $size i32) (result (ref $_Str))
   (array.new_data $_Str $d0 (local.get $offset) (local.get $size))
 )
@@ -318,7 +320,10 @@
 (func $__Vec$pop (param $this (ref $_Vec)) (result (ref eq))
   (local $len i32) (local $v (ref null eq))
   (local.set $len (struct.get $_Vec 1 (local.get $this)))
-  (if (i32.eqz (local.get $len)) (then (unreachable)))
+  (if (i32.eqz (local.get $len)) (then
+    (drop (call $__Process$panic (ref.i31 (i32.const 0))
+      (array.new_data $_Str $d1 (i32.const 0) (i32.const 18))))
+    (unreachable)))
   (local.set $len (i32.sub (local.get $len) (i32.const 1)))
   (local.set $v (array.get $_VecData
     (struct.get $_Vec 0 (local.get $this))
@@ -334,14 +339,20 @@
 
 (func $__Vec$get (param $this (ref $_Vec)) (param $i i32) (result (ref eq))
   (if (i32.ge_u (local.get $i) (struct.get $_Vec 1 (local.get $this)))
-    (then (unreachable)))
+    (then
+      (drop (call $__Process$panic (ref.i31 (i32.const 0))
+        (array.new_data $_Str $d1 (i32.const 18) (i32.const 23))))
+      (unreachable)))
   (ref.as_non_null
     (array.get $_VecData (struct.get $_Vec 0 (local.get $this)) (local.get $i)))
 )
 
 (func $__Vec$set (param $this (ref $_Vec)) (param $i i32) (param $v (ref null eq)) (result i32)
   (if (i32.ge_u (local.get $i) (struct.get $_Vec 1 (local.get $this)))
-    (then (unreachable)))
+    (then
+      (drop (call $__Process$panic (ref.i31 (i32.const 0))
+        (array.new_data $_Str $d1 (i32.const 18) (i32.const 23))))
+      (unreachable)))
   (array.set $_VecData
     (struct.get $_Vec 0 (local.get $this))
     (local.get $i)
